@@ -79,20 +79,20 @@ fn key_strategy() -> impl Strategy<Value = KeySpec> {
         .prop_map(|(secret, aes256, sealer_client, key_id, bidi)| KeySpec { secret, aes256, sealer_client, key_id, bidi })
 }
 
-fn vi(v: u64) -> VarInt {
+pub fn vi(v: u64) -> VarInt {
     VarInt::new(v.min(MAX_VARINT)).expect("harness: varint")
 }
 
 // ---------------------------------------------------------------------------------------
 // a payload reader with arbitrary offsets
 
-struct PayloadReader<'a> {
-    data: &'a [u8],
-    cursor: usize,
-    offset: u64,
-    fin: Option<u64>,
+pub struct PayloadReader<'a> {
+    pub data: &'a [u8],
+    pub cursor: usize,
+    pub offset: u64,
+    pub fin: Option<u64>,
     /// hand the bytes out as a trailing chunk (scatter path) instead of copying them
-    scatter: bool,
+    pub scatter: bool,
 }
 
 impl Storage for PayloadReader<'_> {
